@@ -26,17 +26,19 @@ def gen(chk):
     thorough = chk.tier == 'thorough'
     graphs = []
     k = 5 if thorough else 4
-    labelsets = [G.POOL_PLAIN[:k], ['HP:10', 'HP:9', 'MP_1', 'HP:é', 'A_B:1'][:k]]
+    labelsets = [G.POOL_PLAIN[:k], ['HP:10', 'HP:9', 'MP_1', 'HP:é', 'A_B:1'][:k], ['ICD:9', 'ICD10:A', 'ICD:100', 'ICD1:0', 'HP2:1'][:k]]
     n_exh = 0
     for edges in G.all_acyclic_edge_sets(k):
         if thorough and len(edges) > 6 and rng.random() < 0.5:
             continue    # 5 positions: thin out the densest sets
         n_exh += 1
         for li, labels in enumerate(labelsets):
-            if thorough and li == 1 and rng.random() < 0.7:
+            if thorough and li >= 1 and rng.random() < 0.7:
+                continue
+            if not thorough and li == 2 and n_exh % 3:
                 continue
             es = G.label(edges, labels)
-            if li == 1:
+            if li >= 1:
                 rng.shuffle(es)
             graphs.append(('exh%d' % k, es))
     for _ in range(300 if not thorough else 3000):
@@ -64,7 +66,7 @@ def run(chk):
     chk.extra['factory_graph_cases'] = len(cases)
     chk.exhaustive = True
     chk.rule = ('all non-empty acyclic edge sets over %d labelled positions x 2 label pools (plain; mixed prefixes / _ CURIEs / non-numeric order / '
-                'non-ASCII, shuffled edge order) + random DAGs from shape families (chain, tree, diamond ladder, multi-parent, multi-root, long chain) '
+                'non-ASCII, shuffled edge order) and, for every third edge set, a pool with prefixes that extend one another (ICD / ICD10 / ICD1, HP2) + random DAGs from shape families (chain, tree, diamond ladder, multi-parent, multi-root, long chain) '
                 'with random relabelling; for each graph x each of the 3 factories x every node x {parents, children, ancestors, descendants} x '
                 'include_source {F,T}: the sorted list of returned CURIEs is compared with the model. evaluations = queries compared; '
                 'distinct_nontrivial = distinct edge lists with >= 2 edges' % (5 if chk.tier == 'thorough' else 4))
